@@ -368,7 +368,9 @@ impl OutstationSim {
             series_answers: None,
             series_index: 0,
             series_dev: None,
-            next_value: 1,
+            // (every scripted outstation draws its values from a range of its own, so that a value seen by the handler names the
+            // outstation it came from as well as the fragment)
+            next_value: 1 + 100_000 * (address as u32 % 16),
             unsol_seq: 0,
             processing_delay: 0,
             honest_delay: true,
